@@ -3,9 +3,14 @@
 package consensus
 
 import (
+	"time"
+
 	"github.com/bbva/qed/crypto/hashing"
 	"github.com/hashicorp/raft"
 )
+
+// VerifBarrier waits until the FSM has applied everything that was committed before the call.
+func (n *RaftNode) VerifBarrier(d time.Duration) error { return n.raft.Barrier(d).Error() }
 
 // Codec shims: the production encode/decode functions, exported for the wire-fidelity harness.
 
